@@ -1,6 +1,7 @@
 // C01 / C02: floating-point solves over (tiny-LP family) x (configuration vectors), verdicts and
 // certificates judged in exact arithmetic against the LP as entered by the harness.
 #include "vx_spx.hpp"
+#include "vx_planted.hpp"
 using namespace vx;
 
 static std::string g_prop;
@@ -51,10 +52,16 @@ static std::string ps_tag(SoPlex& spx)
 
 // one solve + verdict; returns the name of the violated rule ("" if none)
 static std::string solve_and_judge(const TinyLP& lp, const XLP& x, const Classification& cl,
-                                   const ConfigSpace::Cfg& cfg, std::string& why, RealResult& r, Ctx* c)
+                                   const ConfigSpace::Cfg& cfg, std::string& why, RealResult& r, Ctx* c, std::ostringstream* capture = nullptr)
 {
    SoPlex spx;
    quiet(spx);
+   if(capture)
+   {
+      // log of the solve (only used to name the internal exception optimize() swallowed, for the violation signature)
+      spx.setIntParam(SoPlex::VERBOSITY, SoPlex::VERBOSITY_NORMAL);
+      for(int v = SPxOut::ERROR; v <= SPxOut::INFO3; ++v) spx.spxout.setStream((SPxOut::Verbosity)v, *capture);
+   }
    g_cs.apply(spx, cfg);
    load_real(spx, lp, g_cs.value(cfg, "loadmode") == 1 ? 1 : 0);
    try
@@ -140,12 +147,33 @@ static std::string result_str(const RealResult& r)
    return o.str();
 }
 
+static uint64_t run_lp_core(const TinyLP& lp, const XLP& x, const Classification& cl, const std::string& caseName, const std::string& sigTag,
+                            const std::vector<ConfigSpace::Cfg>& cfgs, Ctx& c, bool countNT, uint64_t subBase);
+
 static uint64_t run_lp(const TinyLP& lp, const std::vector<ConfigSpace::Cfg>& cfgs, Ctx& c, bool countNT = true, uint64_t subBase = 0)
 {
    XLP x = lp.exact();
    Classification cl = classify(x);
    c.count("lps");
    c.count(std::string("class.") + cl.name());
+   return run_lp_core(lp, x, cl, lp.str(), "", cfgs, c, countNT, subBase);
+}
+
+// planted medium-size LP (classification and optimum known by construction, see vx_planted.hpp)
+static uint64_t run_planted(const PlantedSpec& sp, const std::vector<ConfigSpace::Cfg>& cfgs, Ctx& c, bool countNT = true)
+{
+   PlantedLP P = planted(sp);
+   XLP x = P.lp.exact();
+   c.count("planted_lps");
+   c.count(std::string("planted_class.") + sp.kindName());
+   std::string bad = planted_selfcheck(P);
+   if(!bad.empty()) { c.violation("harness-error:planted-lp-inconsistent", sp.str() + "#default", bad); return 0; }
+   return run_lp_core(P.lp, x, P.cl, sp.str(), std::string("+planted-") + sp.kindName(), cfgs, c, countNT, 0);
+}
+
+static uint64_t run_lp_core(const TinyLP& lp, const XLP& x, const Classification& cl, const std::string& caseName, const std::string& sigTag,
+                            const std::vector<ConfigSpace::Cfg>& cfgs, Ctx& c, bool countNT, uint64_t subBase)
+{
    uint64_t h = 7;
    bool anyIter = false;
    for(size_t k = 0; k < cfgs.size(); ++k)
@@ -166,11 +194,27 @@ static uint64_t run_lp(const TinyLP& lp, const std::vector<ConfigSpace::Cfg>& cf
             RealResult r2;
             solve_and_judge(lp, x, cl, mc, w2, r2, nullptr);
          }
-         c.violation(rule + "@" + g_cs.str(mc) + g_pstag, lp.str() + "#" + g_cs.str(cfgs[k]), why + " | " + result_str(r) + " | class=" + cl.name());
+         std::string exc;
+         if(rule.compare(0, 26, "finite-optimum-not-solved:") == 0)
+         {
+            // name the internal exception (if any) that optimize() caught and turned into this status
+            std::ostringstream log;
+            std::string w3;
+            RealResult r3;
+            solve_and_judge(lp, x, cl, mc, w3, r3, nullptr, &log);
+            std::string L = log.str();
+            size_t q = L.find("Caught exception <");
+            if(q != std::string::npos)
+            {
+               size_t e = L.find_first_of(" >", q + 18);
+               exc = "+exc[" + L.substr(q + 18, e == std::string::npos ? 8 : e - q - 18) + "]";
+            }
+         }
+         c.violation(rule + "@" + g_cs.str(mc) + g_pstag + exc + sigTag, caseName + "#" + g_cs.str(cfgs[k]), why + " | " + (lp.n <= 6 ? result_str(r) : std::string("status=") + status_name(r.status) + " obj=" + TinyLP::num(r.obj) + " iters=" + std::to_string(r.iters)) + " | class=" + cl.name());
       }
       else if(c.wantSample() && k == cfgs.size() / 2)
-         c.sample("{\"lp\":" + lp.json() + ",\"config\":" + jstr(g_cs.str(cfgs[k])) + ",\"exact_class\":" + jstr(cl.name())
-                  + ",\"result\":" + jstr(result_str(r)) + "}");
+         c.sample("{\"lp\":" + (lp.n <= 6 ? lp.json() : jstr(caseName)) + ",\"config\":" + jstr(g_cs.str(cfgs[k])) + ",\"exact_class\":" + jstr(cl.name())
+                  + ",\"result\":" + (lp.n <= 6 ? jstr(result_str(r)) : jstr(std::string("status=") + status_name(r.status) + " obj=" + TinyLP::num(r.obj) + " iters=" + std::to_string(r.iters))) + "}");
    }
    if(countNT && (g_prop == "C01" ? (cl.hasopt && anyIter) : !cl.hasopt)) c.count("nontrivial_lps");
    return h;
@@ -245,9 +289,12 @@ int main(int argc, char** argv)
       size_t e = doc.find('"', p);
       std::string cs = doc.substr(p, e - p);
       size_t h = cs.find('#');
-      TinyLP lp = TinyLP::parse(cs.substr(0, h));
       ConfigSpace::Cfg cfg = g_cs.parse(h == std::string::npos ? "default" : cs.substr(h + 1));
       mallopt(M_PERTURB, 85);
+      PlantedSpec psp;
+      if(cs.compare(0, 2, "P:") == 0 && PlantedSpec::parse(cs.substr(0, h), psp))
+         return replay_case([&](Ctx & c) { run_planted(psp, {cfg}, c); });
+      TinyLP lp = TinyLP::parse(cs.substr(0, h));
       return replay_case([&](Ctx & c) { run_lp(lp, {cfg}, c); });
    }
 
@@ -326,6 +373,19 @@ int main(int argc, char** argv)
          if(!lp3(idx, lp)) return 0;
          return run_lp(lp, cfgD, c, pass == 0);
       }, [lp3](uint64_t idx, uint64_t) { TinyLP lp; lp3(idx, lp); return lp.str() + "#default"; }, o, sigsfx(&cfgD));
+   }
+   {
+      // phase P: planted LPs up to 40x40 (finite optimum / infeasible / unbounded known by construction) x all configurations with <= 1 deviation.
+      // This is the part of the statement the tiny families cannot reach: "completeness for LPs with small-integer data up to ~40x40".
+      static PlantedGrid pg;
+      pg.sizes = {{4, 3}, {5, 8}, {8, 5}, {10, 10}, {16, 12}, {12, 20}, {24, 24}, {40, 25}, {30, 40}, {40, 40}};
+      pg.densities = {15, 40, 100};
+      pg.seeds = thorough ? 60 : 8;
+      rep.phase("planted LPs up to 40x40 x dev<=1", pg.size(), [&](uint64_t idx, int pass, Ctx & c) -> uint64_t
+      {
+         return run_planted(pg.at(idx), cfg1, c, pass == 0);
+      }, [&](uint64_t idx, uint64_t sub) { return pg.at(idx).str() + "#" + (sub < cfg1.size() ? g_cs.str(cfg1[sub]) : std::string("default")); }, o, sigsfx(&cfg1));
+      rep.extra["planted_grid"] = jstr("sizes (n x m) 4x3 5x8 8x5 10x10 16x12 12x20 24x24 40x25 30x40 40x40; densities 15/40/100 %; degenerate 0/1; min/max; kinds OPT/INF/UNB; seeds 0.." + std::to_string(pg.seeds - 1));
    }
    if(thorough)
    {
